@@ -151,6 +151,70 @@ def expected_count(cnf):
     return (2 ** (natoms - len(ingroup))) * prod
 
 
+def handbuilt_stream(rng, n):
+    """Yield (description, problem or None): formulas built through the LogicDAG API (atoms with or without labels, with
+    or without compound nodes - without them the CNF has no clauses and `_compile` builds the circuit itself), compiled,
+    and EVERY atom and every label evaluated: a d-DNNF that is smooth over all variables of the CNF gives each atom its own
+    weight, whether or not it carries a label."""
+    from problog.formula import LogicDAG
+    from problog.cnf_formula import CNF
+    from problog.ddnnf_formula import DDNNF
+    from problog.logic import Term
+    for _ in range(n):
+        dag = LogicDAG()
+        k = rng.randint(1, 5)
+        ps = [rng.randint(1, 9) / 10.0 for _ in range(k)]
+        atoms = [dag.add_atom("a%d" % i, ps[i]) for i in range(k)]
+        desc = ["atom a%d %.1f" % (i, ps[i]) for i in range(k)]
+        extra = []
+        if rng.random() < 0.4 and k >= 2:
+            i, j = rng.sample(range(k), 2)
+            nd = dag.add_and((atoms[i], -atoms[j])) if rng.random() < 0.5 else dag.add_or((atoms[i], atoms[j]))
+            want = ps[i] * (1 - ps[j]) if type(dag.get_node(nd)).__name__ == "conj" else 1 - (1 - ps[i]) * (1 - ps[j])
+            dag.add_name(Term("c"), nd, dag.LABEL_QUERY)
+            extra.append(("c", nd, want))
+            desc.append("c = %s(a%d, %sa%d) query" % (type(dag.get_node(nd)).__name__, i, "-" if type(dag.get_node(nd)).__name__ == "conj" else "", j))
+        for i in range(k):
+            if rng.random() < 0.4:
+                neg = rng.random() < 0.3
+                dag.add_name(Term("n%d" % i), -atoms[i] if neg else atoms[i], dag.LABEL_QUERY)
+                desc.append("label n%d = %sa%d" % (i, "-" if neg else "", i))
+        d = "; ".join(desc)
+        try:
+            dd = DDNNF.create_from(CNF.create_from(dag))
+            ev = dd.get_evaluator()
+            res = dd.evaluate()
+        except Exception as e:
+            yield d, "compilation/evaluation raised %s: %s" % (type(e).__name__, str(e)[:80])
+            continue
+        problem = None
+        for nm, v in res.items():
+            nm = str(nm)
+            if nm == "c":
+                want = extra[0][2]
+            else:
+                i = int(nm[1:])
+                neg = "label %s = -a%d" % (nm, i) in desc
+                want = (1 - ps[i]) if neg else ps[i]
+            if abs(float(v) - want) > 1e-9:
+                problem = "label %s evaluates to %r, expected %r" % (nm, v, want)
+        # every atom of the CNF, labelled or not, through the evaluator's own node interface
+        names = {str(n): key for n, key, l in dd.get_names_with_label()}
+        cnf_of = {}
+        try:
+            # only for the clause-free case: there `_compile` numbers the circuit's atoms like the CNF's variables, which
+            # are the DAG's atoms in creation order (a circuit loaded from dsharp output has its own numbering)
+            for i, a in enumerate(atoms if not extra else []):
+                w = dd.get_evaluator().evaluate(a)
+                if abs(float(w) - ps[i]) > 1e-9 and problem is None:
+                    problem = "atom a%d (node %d, %s) evaluates to %r in the compiled circuit, its weight is %r" % (
+                        i, a, "labelled" if any(("= a%d" % i) in x or ("= -a%d" % i) in x for x in desc) else "no label", w, ps[i])
+        except Exception as e:
+            if problem is None:
+                problem = "evaluating an atom node raised %s: %s" % (type(e).__name__, str(e)[:80])
+        yield d, problem
+
+
 def constraint_stream(rng, n):
     """Yield (src, problem or None): compile CNFs that carry a TrueConstraint / ClauseConstraint on query nodes."""
     from problog.constraint import TrueConstraint, ClauseConstraint, ConstraintAD
@@ -300,6 +364,11 @@ def run(ctx):
         ctx.count("constraint-carry case")
         if problem:
             problems.append((src, problem, "non-AD constraint"))
+    for d, problem in handbuilt_stream(rng, ctx.budget(60, 1500)):
+        ctx.count("hand-built formula case")
+        ctx.case("handbuilt " + d)
+        if problem:
+            problems.append((d, problem, "hand-built formula"))
     first_diff = None
     verdicts = {}
     if drv is not None:
